@@ -32,7 +32,7 @@ ASSUMPTIONS = ["per-target expectation = the library's own root merge of indepen
 REACH = [("yamlpath/merger/merger.py", "_insert_dict,_insert_list,_insert_set,_insert_scalar,_get_merge_target_nodes,merge_with,_replace_merge_target", "Merger._insert_* / _get_merge_target_nodes / merge_with"),
          ("yamlpath/merger/mergerconfig.py", "get_insertion_point", "MergerConfig.get_insertion_point")]
 SIZES = {"quick": 30000, "thorough": 800000}
-REQUIRED_COUNTERS = ["existing_single", "existing_multiple", "created", "uncreatable"]
+REQUIRED_COUNTERS = ["traversal_mergeat_cases", "existing_single", "existing_multiple", "created", "uncreatable"]
 SAMPLE = [("deep", "all", "all", "unique"), ("deep", "unique", "deep", "unique"), ("right", "right", "right", "right"),
           ("left", "left", "left", "left"), ("deep", "right", "unique", "left"), ("right", "all", "deep", "unique")]
 
@@ -198,6 +198,11 @@ def run_shard(ctx):
             base = rng.choice([[]] + [s for s, nd in sp if isinstance(nd, (dict, list)) and not yp.is_set(nd)][:6])
             tailseg = rng.choice([[("ALL",)], [("SEARCH", False, "=~", ".", rng.choice([".", "a", "^[ab]"]))],
                                   [("KEY", rng.choice(["id", "name", "v"]))], [("SEARCH", False, "=", "id", rng.choice("123"))]])
+            if rng.random() < 0.3:
+                # deep traversal to a key name: the targets are what the path matches in L *before* anything is
+                # merged (the right-hand document usually holds that key too)
+                tailseg = [("TRAVERSE",), ("KEY", rng.choice(C05.KEYS))]
+                ctx.count("traversal_mergeat_cases")
             run_case(ctx, ltext, rtext, list(base) + tailseg, "multiple", combo)
         elif x < 0.85:
             bases = [[]] + [s for s, nd in sp if isinstance(nd, dict) and all(t == "KEY" for t, _ in s)][:6]
